@@ -22,7 +22,7 @@ import shutil
 import subprocess
 
 from ..core import codebase, env, par, shrink
-from ..core.result import Failure, Report
+from ..core.result import Failure, Report, robust
 from ..ref import cpp
 
 ID = "C04"
@@ -170,7 +170,7 @@ def _work(arg):
     out = []
     seen = set()
     for case in fails[:20]:
-        f = mk_failure(root, case)
+        f = robust(mk_failure, {"described": describe(case)}, root, case)
         if f and f.key() not in seen:
             seen.add(f.key())
             out.append(f)
